@@ -1,6 +1,6 @@
 """C02 - time-indexed select / insert: case generator, Coq rendering, correspondence, direct oracle."""
 from __future__ import annotations
-import math, os, random
+import math, os, random, struct
 from collections import Counter
 from fractions import Fraction as Q
 import framework as F
@@ -29,7 +29,11 @@ LEVEL_NOTE = ("Trusted: Coq kernel + stdlib real axioms (sig_forall_dec, sig_not
               "modelled in Coq; int64 and bool records are covered by the implementation-side oracle stream ONLY: expected values from "
               "the list-of-observations history with exact Fractions, scalar/tensor agreement, range rejection, frame, round trips; likewise records whose step time is changed by load_state_dict / set_extra_state instead of the setter: "
               "the Coq model has a fixed dt per record, the oracle stream checks them with the new dt), time tensors whose shape differs from the observation's while having the right number of dimensions, "
-              "empty observations (nel = 0) for the out-of-place scalar insert.")
+              "empty observations (nel = 0) for the out-of-place scalar insert. Mixed precision: the Coq model and the oracle read every "
+              "time exactly (the documented rule does not depend on the storage or time dtype); values are compared with a tolerance for "
+              "the dtype, decisions exactly (stored values 0.25 apart, probe interpolations). float32 TIME tensors are only generated "
+              "with a tolerance (>= 0.02) far above their resolution: with a tolerance below the float32 resolution of the time the "
+              "float32 evaluation of the on-grid test is noise on the unchanged code and is not judged.")
 HEADER = ("From Coq Require Import List ZArith Bool PrimFloat.\n"
           "From Inferno Require Import Base.NumF C01.Ring C02.Select C02.SelectExec.\n"
           "Import ListNotations.\nOpen Scope Z_scope.\n")
@@ -218,6 +222,126 @@ def gen_restore_cases(rng, n):
     return out
 
 
+# ---- mixed precision: storage dtype x time dtype, long records, non-representable dt
+MIX_DTS = [1.3, 0.9, 0.45, 0.1]
+MIX_N = [24, 80, 161, 220]
+MIX_SHAPES = [[], [2], [3]]
+
+
+def r32(x):
+    """the float32 value nearest to x, as a python float"""
+    return struct.unpack("f", struct.pack("f", x))[0]
+
+
+def gen_val_mixed(rng, dtype):
+    """values every storage type holds exactly, pairwise at least 0.25 apart or equal"""
+    if dtype == "bool":
+        return float(rng.randint(0, 1))
+    if dtype == "i64":
+        return float(rng.randint(-20, 20))
+    return rng.randint(-80, 80) * 0.25
+
+
+def gen_mixed_case(rng, i):
+    """storage in {float32, float64, int64, bool}, time tensors / scalar times in float64 or float32
+    independently, records of 24..256 slots (times up to ~330), dt in {1.3, .9, .45, .1}.
+    float64 times: on grid as computed in float64 (k*dt), within (tol/2) and outside (2 tol) tolerance, tol down to
+    the default 1e-6.  float32 times: the float32 roundings of the same kinds with a tolerance (0.02 or dt/5) well
+    above the float32 resolution of the times (<= 3e-5), so that the exact reading of every decision has a margin
+    no float32 evaluation of the documented rule can cross."""
+    sdt = ["f32", "f32", "f64", "f32", "i64", "bool", "f32", "f32"][i % 8]
+    tdt = "f32" if i % 5 in (1, 3) else "f64"
+    N, dt, shape = rng.choice(MIX_N), rng.choice(MIX_DTS), rng.choice(MIX_SHAPES)
+    n = nel(shape)
+    rt = []
+    ops = [["fill", [[gen_val_mixed(rng, sdt) for _ in range(n)] for _ in range(N + rng.randint(0, N))]]]
+
+    def time(tol, bad=False, near=False):
+        # mostly on or near the grid, anywhere along the record (k up to N-1): k*dt as computed in float64, within
+        # tolerance (tol/2), outside (2 tol), both limits, off grid, rarely out of range
+        k = rng.randint(0, N - 1)
+        kind = rng.choice(["grid", "grid", "tol_in", "just_out"] if near else
+                          ["grid"] * 5 + ["tol_in"] * 2 + ["just_out"] * 2 + ["off"] * 4 + ["lim_lo", "lim_hi"] + (["out"] * 4 if bad else []))
+        sgn = rng.choice([-1.0, 1.0])
+        if kind == "grid":
+            t = k * dt
+        elif kind == "tol_in":
+            t = k * dt + sgn * tol * 0.5
+        elif kind == "just_out":
+            t = k * dt + sgn * tol * 2
+        elif kind == "off":
+            t = (rng.randint(0, N - 2) + rng.choice([0.37, 0.73, 0.123, 0.9, 0.26])) * dt
+        elif kind == "lim_lo":
+            t = -tol * 0.5
+        elif kind == "lim_hi":
+            t = dt * (N - 1) + tol * 0.5
+        else:
+            t = rng.choice([-tol * 2 - 1e-3, -dt, dt * (N - 1) + 2 * tol + 1e-3, dt * N, dt * (N + 2.5)])
+        return r32(t) if tdt == "f32" else t
+
+    def interp():
+        ic = rng.choice([0, 1, 2, 6, 7] if sdt == "bool" else [0, 1, 2, 3, 4, 5, 6, 6, 6, 7, 7, 7])
+        return ic, (rng.choice([2.0, 0.7, 5.0]) if ic in (4, 5) else 0.0)
+
+    def extrap():
+        if sdt in ("i64", "bool"):
+            return rng.randint(0, 3), 0.0
+        # no linear extrapolation here: from a time 2e-6 off the grid it writes values ~1e7 times the data, which the
+        # first (float64, short record) stream judges with its relative tolerance; here stored values may be exactly 0
+        # and float32 storage / times make the cancellation ill-conditioned
+        ec = rng.choice([0, 1, 2, 3, 6, 7])
+        if ec in (4, 5):
+            return ec, rng.choice([0.0, 0.0, 0.5, 1.5])
+        return ec, (rng.choice([2.0, 0.7, 5.0]) if ec >= 6 else 0.0)
+    for _ in range(rng.randint(6, 10)):
+        tol = rng.choice([0.02, dt * 0.2]) if tdt == "f32" else rng.choice([1e-6, 1e-6, 1e-6, 1e-6, 1e-3, dt * 0.2])
+        off = rng.randint(-1, N + 1)
+        bad = rng.random() < 0.06
+        kind = rng.choice(["selT", "selT", "selT", "selT", "selT", "selS", "selS", "rtT", "rtT", "rtS", "insT", "insS"])
+        if kind == "selS":
+            ic, par = interp()
+            ops.append(["selS", tol, off, time(tol, bad), ic, par])
+        elif kind == "selT":
+            ic, par = interp()
+            tshape = list(shape) if rng.random() < 0.3 else shape + [rng.randint(1, 3)]
+            ops.append(["selT", tol, off, tshape, [time(tol, bad and rng.random() < 0.3) for _ in range(nel(tshape))], ic, par])
+        elif kind in ("insS", "rtS"):
+            ec, par = extrap()
+            t = time(tol, bad)
+            ops.append(["insS", shape, [gen_val_mixed(rng, sdt) for _ in range(n)], tol, off, t, ec, par, rng.random() < 0.5])
+            if kind == "rtS":
+                rt.append(len(ops) - 1)
+                ops.append(["selS", tol, off, t, rng.choice(match_of(ec, sdt)), par])
+        else:
+            ec, par = extrap()
+            times = [time(tol, bad and rng.random() < 0.3) for _ in range(n)]
+            ops.append(["insT", shape, [gen_val_mixed(rng, sdt) for _ in range(n)], tol, off, shape, times, ec, par,
+                        rng.random() < 0.5])
+            if kind == "rtT":
+                rt.append(len(ops) - 1)
+                ops.append(["selT", tol, off, shape, times, rng.choice(match_of(ec, sdt)), par])
+    # a sweep along the whole record: 8 times per element on / just around the grid, read through the two probe
+    # interpolations (an exact read returns the bare sample, an interpolation the older + 100 / the newer + 300)
+    tol = 0.02 if tdt == "f32" else 1e-6
+    for ic in (6, 7):
+        ops.append(["selT", tol, rng.randint(0, N), shape + [8], [time(tol, near=True) for _ in range(8 * n)], ic, 0.0])
+    return {"N": N, "dt": dt, "shape": shape, "ops": ops, "rt": rt, "dtype": sdt, "tdtype": tdt, "mixed": True}
+
+
+def gen_mixed_cases(rng, n):
+    return [gen_mixed_case(rng, i) for i in range(n)]
+
+
+def vtol(case):
+    """(relative, absolute) tolerance for VALUES; decisions (exact read vs interpolation, which bracket) are
+    never subject to it: stored values are >= 0.25 apart and the probe interpolations add 100 / 300"""
+    if case.get("tdtype", "f64") == "f32":
+        return 1e-3, 5e-3      # the elapsed time itself is computed in float32 from times of resolution ~2e-5
+    if case.get("dtype", "f64") == "f32":
+        return 1e-5, 2e-4      # values rounded to float32 when stored
+    return None
+
+
 def exhaustive_cases():
     """small scope: N <= 3, every pointer position, every offset 0..N, a fixed set of times covering every
     kind, every interpolation, scalar and tensor time; dyadic dt so that boundaries are exact"""
@@ -265,6 +389,8 @@ def q_op(op, shape):
     f, b = F.coq_float, F.coq_bool
     if k == "push":
         return f"SPush {q_fs(op[1])}"
+    if k == "fill":
+        return f"SFill {F.coq_list([q_fs(r) for r in op[1]])}"
     if k == "incr":
         return f"SIncr ({op[1]})"
     if k == "selS":
@@ -284,7 +410,7 @@ def q_op(op, shape):
 
 
 def q_case(case):
-    return (f"run_case {case['N']}%nat {F.coq_float(case['dt'])} {q_shape(case['shape'])} "
+    return (f"{'run_case_lite' if case.get('mixed') else 'run_case'} {case['N']}%nat {F.coq_float(case['dt'])} {q_shape(case['shape'])} "
             f"{F.coq_list([q_op(o, case['shape']) for o in case['ops']])}")
 
 
@@ -332,7 +458,9 @@ def interp_ref(ic, par, p, n, sa, dt):
         return p + (n - p) / dt * sa
     if ic == 4:
         return p * math.exp(-sa / par)
-    return p * math.exp(-sa * par)
+    if ic == 5:
+        return p * math.exp(-sa * par)
+    return p + 100.0 if ic == 6 else n + 300.0
 
 
 def extrap_ref(ec, par, x, sa, p, n, dt):
@@ -392,7 +520,9 @@ def oracle_case(case, trace):
     shape, dt = case["shape"], case["dt"]
     n = nel(shape)
     prev = None          # decoded snapshot before the operation
-    rel = 1e-6
+    rel, ab = vtol(case) or (1e-6, 1e-9)
+    srel, sab = vtol(case) or (1e-9, 1e-12)       # scalar vs tensor branch
+    rrel, rab = vtol(case) or (1e-7, 1e-9)        # round trip
     late = []            # reported after the select/insert failures of the same case
     for i, (op, ent) in enumerate(zip(case["ops"], trace)):
         out, snap, aux = ent[0], ent[1], ent[2]
@@ -406,7 +536,7 @@ def oracle_case(case, trace):
         out = dec_out(out)
         pre, prev = prev, snap
         k = op[0]
-        if k in ("push", "incr") or pre is None or pre[2] != 2:
+        if k in ("push", "fill", "incr") or pre is None or pre[2] != 2:
             continue
         h = Hist(pre)
         N = h.N
@@ -434,14 +564,14 @@ def oracle_case(case, trace):
             got = out[1][2]
             if out[1][0] == 3:
                 got = [[g] for g in got]
-            if not same(exp, got, rel, 1e-9):
+            if not same(exp, got, rel, ab):
                 kinds = sorted({l[0] for l in locs})
                 fail("select-value-" + "+".join(kinds), exp, got)
             if snap != pre:
                 fail("select-changed-state", pre, snap)
             if aux is not None:
                 sc = [[F.dec_float(x) for x in r] for r in aux]
-                if not same(sc, got, 1e-9, 1e-12):
+                if not same(sc, got, srel, sab):
                     fail("scalar-tensor-disagree", sc, got)
         else:
             if k == "insS":
@@ -470,7 +600,7 @@ def oracle_case(case, trace):
                     new.at(off + kk + 1)[e] = pe
                     new.at(off + kk)[e] = ne
             exp = [pre[0], pre[1], 2, pre[3], new.rows]
-            if not same(exp, snap, rel, 1e-9):
+            if not same(exp, snap, rel, ab):
                 # frame or value?
                 touched = set()
                 for e in range(n):
@@ -490,7 +620,7 @@ def oracle_case(case, trace):
         got = dec_out(o2)[1][2]
         if dec_out(o2)[1][0] == 4:
             got = [g[0] for g in got]
-        if not same(list(els), got, 1e-7, 1e-9):
+        if not same(list(els), got, rrel, rab):
             fails.append({"step": i + 1, "op": case["ops"][i + 1], "what": "roundtrip", "expected": els, "got": got,
                           "pair": [case["ops"][i][-3], case["ops"][i + 1][-2]]})
     return fails + late
@@ -502,6 +632,8 @@ def signature(f, case=None):
         sig["dtype"] = case["dtype"]
     if case is not None and "restore" in case:
         sig["restore"] = case["restore"]["via"]
+    if case is not None and case.get("mixed"):
+        sig["tdtype"] = case.get("tdtype", "f64")
     return sig
 
 
@@ -530,20 +662,23 @@ def compare(case, ti, tm):
     """model trace vs implementation trace; None or the first difference"""
     if len(ti) != len(tm):
         return {"detail": "trace lengths differ", "impl": len(ti), "model": len(tm)}
+    rel, ab = vtol(case) or (1e-9, 1e-12)
     for j, (ient, (mo, msn)) in enumerate(zip(ti, tm)):
         io, isn = ient[0], ient[1]
         a, b = dec_out(io), dec_out(mo)
-        if not same(a, b):
+        if not same(a, b, rel, ab):
             return {"first_diff_step": j, "op": case["ops"][j], "where": "output", "impl": a, "model": b}
+        if msn == []:            # long records: the model reports the state only after operations that can change it
+            continue
         a, b = dec_state(isn), dec_state(msn)
-        if not same(a, b):
+        if not same(a, b, rel, ab):
             return {"first_diff_step": j, "op": case["ops"][j], "where": "state", "impl": a, "model": b}
     return None
 
 
 def is_float_case(c):
     """cases that also go through the Coq model"""
-    return c.get("dtype", "f64") == "f64" and "restore" not in c
+    return c.get("dtype", "f64") in ("f64", "f32") and "restore" not in c
 
 
 def run(ctx):
@@ -560,9 +695,16 @@ def run(ctx):
         gen_nonfloat_cases(random.Random(ctx["seed"] * 7919 + 13), 120 if quick else 1500)
     # records whose step time arrives through load_state_dict / set_extra_state: oracle only, own random stream
     ncases += gen_restore_cases(random.Random(ctx["seed"] * 104729 + 7), 60 if quick else 800)
+    # mixed precision (storage dtype x time dtype, long records, non-representable dt), own random stream; the cases with
+    # floating storage also go through the Coq model, evaluated in binary64 on the exact times
+    mixed = gen_mixed_cases(random.Random(ctx["seed"] * 15485863 + 3), 40 if quick else 400)
+    fcases += [c for c in mixed if is_float_case(c)]
+    ncases += [c for c in mixed if not is_float_case(c)]
     cases = fcases + ncases
     impl = F.run_impl(IMPL, {"cases": cases})
-    model = F.eval_terms(ID, HEADER, [q_case(c) for c in fcases], shard=20 if quick else 100)
+    nshort = len([c for c in fcases if not c.get("mixed")])
+    model = F.eval_terms(ID, HEADER, [q_case(c) for c in fcases[:nshort]], shard=20 if quick else 100) + \
+        F.eval_terms(ID, HEADER, [q_case(c) for c in fcases[nshort:]], shard=2 if quick else 8, tag="mixed")
     mismatches, oracle_fail = [], []
     for c, ti, tm in zip(fcases, impl, model):
         if isinstance(tm, Exception):
@@ -596,7 +738,11 @@ def run(ctx):
                 + "; plus an oracle-only stream of the same sequences on int64 and bool records (integer-preserving extrapolations; "
                   "expected values from the list-of-observations history with exact Fractions; scalar vs tensor agreement) and an "
                   "oracle-only stream on persist_temporal=True records built with another step time (same slot count) whose "
-                  "dt/duration arrive through load_state_dict or set_extra_state before the selects/inserts (expected values with the NEW dt)",
+                  "dt/duration arrive through load_state_dict or set_extra_state before the selects/inserts (expected values with the NEW dt)"
+                  "; plus a mixed-precision stream: storage float32/float64/int64/bool x time tensors and scalar times in float64 or "
+                  "float32, records of 24..256 slots (times to ~330), dt in {1.3,.9,.45,.1}, on-grid times as computed in float64, "
+                  "within / outside tolerance (default 1e-6 for float64 times), probe interpolations exposing the decision; floating "
+                  "storage cases also through the Coq model in binary64 on the exact times",
         "op_distribution": dict(dist), "error_distribution": dict(errs), "time_kind_distribution": dict(kinds),
         "roundtrip_pairs": dict(pairs),
         "N_distribution": dict(Counter(c["N"] for c in cases)),
@@ -607,6 +753,7 @@ def run(ctx):
         "model_correspondence_cases": len(fcases), "oracle_only_cases": len(ncases),
         "restored_step_time_cases": dict(Counter(c["restore"]["via"] for c in cases if "restore" in c)),
         "storage_dtype_distribution": dict(Counter(c.get("dtype", "f64") for c in cases)),
+        "mixed_precision_cases": dict(Counter(f"storage {c['dtype']} / times {c['tdtype']}" for c in cases if c.get("mixed"))),
     }
 
 
